@@ -32,6 +32,16 @@ CLAIMS = {
 
 NOT_APPLICABLE = {}
 
+CLAIMS["C14"] = dict(
+    text="Closed, exhaustive on the real module: all 256 bytes decode and re-encode to themselves; agreement with the stdlib ascii codec on 0x00-0x7E and koi8_r on "
+         "0xC0-0xFF; ENCODING_TABLE is exactly the inverse relation of DECODING_TABLE; for each of the 1114112 code points encode succeeds iff the character is in the "
+         "table. Proof for strings of arbitrary length (comprehension contract + two loop contracts with variants over the real encode body): success iff every "
+         "character is in the table, bytes pointwise from the table, otherwise UnicodeEncodeError('bk', s, start, end) with start the first and end-1 the last "
+         "unencodable index, no IndexError; decode pointwise; CharLiteral.resolve reports 'invalid-character' for an unencodable literal and packs two bytes little-endian.",
+    note="Trusted: pyvc (loop/comprehension contract rules), z3, stdlib ascii/koi8_r codecs as oracle; large constant tables appear as uninterpreted functions in "
+         "the vc part, their content being the closed obligations. Codec registration/dispatch is stdlib machinery.",
+)
+
 CLAIMS["C15"] = dict(
     text="Proof for strings of arbitrary length and <n> codes over Z: metacommands.rad50 (through the real Metacommand.compile_insn) is verified with three loop "
          "contracts (character loop, padding loop with a variant, packing loop): the code list is, per chunk and in order, the alphabet index of each upper-cased "
